@@ -1,9 +1,163 @@
+import HecsModel.Lemmas.Borrow
 import HecsModel.Lemmas.BorrowSites
 /-
-  C06 — Borrow flag protocol is exclusive under every thread interleaving.
+  C06 — the reader/writer borrow flag is sound for any number of threads and any interleaving of
+  its atomic actions.
+
+  `Inv` ties the lock word to what the threads hold:
+    word = UNIQUE · (#unique holders) + (#shared borrows) + (#pending roll-backs),
+  with at most one unique holder, who excludes every shared borrow.  It holds initially and is
+  preserved by every step of every thread, hence along every schedule of unbounded length.
+
+  The word of the model is a natural number, so `Inv` needs no overflow hypothesis; the documented
+  out-of-scope overflow (2^63 simultaneous shared borrows/attempts) appears only as `Bounded`,
+  which is what makes the natural-number word coincide with the 64-bit word of the real code
+  (`word_fits`) and what makes a refusal of a shared borrow imply a unique holder
+  (`deny_shared_only_if_unique`).
 -/
 namespace Hecs.Props.C06
-open Hecs.Borrow Hecs.Atomics
+open Hecs.Borrow
+
+/-! ### 1–3: the invariant holds on every reachable state -/
+
+theorem inv_init (n : Nat) : Inv (Sys.init n) := inv_init' n
+
+/-- every thread index (in range or not), every action (enabled or not) -/
+theorem inv_step (s : Sys) (i : Nat) (a : Act) (h : Inv s) : Inv (s.step i a).1 :=
+  inv_step' s i a h
+
+theorem inv_run (n : Nat) (steps : List (Nat × Act)) : Inv (run (Sys.init n) steps) :=
+  inv_run' steps _ (inv_init' n)
+
+/-- each step adds at most one unit to the word besides the unique bit -/
+theorem bounded_step (s : Sys) (i : Nat) (a : Act)
+    (h : sumShared s + numRollback s + 1 < UNIQUE) : Bounded (s.step i a).1 := by
+  have := load_step s i a
+  unfold load at this
+  unfold Bounded
+  omega
+
+/-- a schedule shorter than 2^63 steps stays inside the overflow bound, and there the model word
+is a faithful image of the 64-bit word -/
+theorem bounded_run (n : Nat) (steps : List (Nat × Act)) (h : steps.length < UNIQUE) :
+    Bounded (run (Sys.init n) steps) ∧ (run (Sys.init n) steps).word < 2 * UNIQUE := by
+  have h1 := load_run steps (Sys.init n)
+  rw [load_init] at h1
+  have hb : Bounded (run (Sys.init n) steps) := by
+    unfold load at h1
+    unfold Bounded
+    omega
+  exact ⟨hb, word_lt_two_unique _ (inv_run n steps) hb⟩
+
+theorem word_fits (s : Sys) (h : Inv s) (hb : Bounded s) : s.word < 2 * UNIQUE :=
+  word_lt_two_unique s h hb
+
+/-! ### 4: mutual exclusion -/
+
+/-- while a thread holds the unique borrow, no other thread holds anything -/
+theorem never_unique_with_other (s : Sys) (h : Inv s) (i j : Nat) (ti tj : Thread)
+    (hi : s.threads[i]? = some ti) (hj : s.threads[j]? = some tj) (hne : i ≠ j)
+    (hu : ti.uniq = true) : tj.uniq = false ∧ tj.shared = 0 :=
+  uniq_excludes_other s h i j ti tj hi hj hne hu
+
+/-! ### 5: a grant is justified by the state it was issued in -/
+
+/-- `borrow_mut` succeeds only when nobody holds or is attempting anything -/
+theorem grant_unique_sound (s : Sys) (i : Nat) (h : Inv s)
+    (hg : (s.step i .borrowMut).2 = some true) :
+    sumShared s = 0 ∧ numUniq s = 0 ∧ numRollback s = 0 := by
+  have hz := word_zero_of_borrowMut_true s i hg
+  obtain ⟨h1, h2, h3⟩ := all_zero_of_word_zero UNIQUE_pos h.1 hz
+  exact ⟨h2, h1, h3⟩
+
+/-- `borrow` succeeds only when nobody holds the unique borrow -/
+theorem grant_shared_sound (s : Sys) (i : Nat) (h : Inv s)
+    (hg : (s.step i .borrowAdd).2 = some true) : numUniq s = 0 :=
+  nu_zero_of_lt h.1 (word_lt_of_borrowAdd_true s i hg)
+
+/-- converse, inside the overflow bound: `borrow` is refused only because of a unique holder -/
+theorem deny_shared_only_if_unique (s : Sys) (i : Nat) (t : Thread) (h : Inv s) (hb : Bounded s)
+    (ht : s.threads[i]? = some t) (he : enabled t .borrowAdd = true)
+    (hd : (s.step i .borrowAdd).2 = none) : numUniq s = 1 :=
+  uniq_of_word_ge s h hb (word_ge_of_borrowAdd_none s i t ht he hd)
+
+/-! ### 6: nothing held, nothing pending ⇒ the word is back to zero -/
+
+theorem quiescent_zero (s : Sys) (h : Inv s)
+    (hq : ∀ t ∈ s.threads, t.shared = 0 ∧ t.uniq = false ∧ t.rollback = false) : s.word = 0 := by
+  have hs : sumShared s = 0 := sum_map_eq_zero _ _ (fun t ht => (hq t ht).1)
+  have hu : numUniq s = 0 := sum_map_eq_zero _ _ (fun t ht => by simp [uBit, (hq t ht).2.1])
+  have hr : numRollback s = 0 := sum_map_eq_zero _ _ (fun t ht => by simp [rBit, (hq t ht).2.2])
+  have hw := h.1
+  rw [hs, hu, hr] at hw
+  simpa using hw
+
+/-! ### 7: frame and roll-back -/
+
+/-- a step of thread `i` never changes another thread's record -/
+theorem failed_attempt_frame (s : Sys) (i j : Nat) (a : Act) (hne : j ≠ i) :
+    (s.step i a).1.threads[j]? = s.threads[j]? := step_frame s i j a hne
+
+/-- a failed `borrow` (the refused `fetch_add`, then the compensating `fetch_sub` with no step in
+between) restores the word -/
+theorem failed_attempt_restores_word (s : Sys) (i : Nat) (t : Thread)
+    (ht : s.threads[i]? = some t) (he : enabled t .borrowAdd = true)
+    (hn : (s.step i .borrowAdd).2 = none) :
+    ((s.step i .borrowAdd).1.step i .borrowUndo).1.word = s.word := by
+  rw [failed_borrow_restores s i t ht he hn]
+
+/-- …and in fact the whole state, every thread record included -/
+theorem failed_attempt_restores_state (s : Sys) (i : Nat) (t : Thread)
+    (ht : s.threads[i]? = some t) (he : enabled t .borrowAdd = true)
+    (hn : (s.step i .borrowAdd).2 = none) :
+    ((s.step i .borrowAdd).1.step i .borrowUndo).1 = s := failed_borrow_restores s i t ht he hn
+
+/-- a thread in `rollback` can always take its compensating step, whatever the others did in the
+meantime; the step completes the call with `false`, gives back exactly one unit of the word
+(no truncated subtraction) and clears the flag -/
+theorem progress_rollback (s : Sys) (i : Nat) (t : Thread) (h : Inv s)
+    (ht : s.threads[i]? = some t) (hrb : t.rollback = true) :
+    enabled t .borrowUndo = true ∧ (s.step i .borrowUndo).2 = some false ∧
+      (s.step i .borrowUndo).1.word + 1 = s.word ∧
+      (s.step i .borrowUndo).1.threads[i]? = some { t with rollback := false } :=
+  rollback_step s i t ht hrb h
+
+/-! ### 8: the hypotheses are satisfiable on non-trivial states -/
+
+/-- thread 0 takes the unique borrow, thread 1 attempts a shared one and is refused, thread 2 is
+refused the unique borrow; thread 1 has not rolled back yet -/
+def demo : Sys := run (Sys.init 3) [(0, .borrowMut), (1, .borrowAdd), (2, .borrowMut)]
+
+example : demo.word = UNIQUE + 1 ∧
+    demo.threads = [{ uniq := true }, { rollback := true }, {}] := by decide
+
+example : Inv demo ∧ Bounded demo := ⟨inv_run 3 _, (bounded_run 3 _ (by decide)).1⟩
+
+/-- `never_unique_with_other`: a unique holder next to another thread -/
+example : ∃ ti tj, demo.threads[0]? = some ti ∧ demo.threads[1]? = some tj ∧ ti.uniq = true :=
+  ⟨{ uniq := true }, { rollback := true }, by decide⟩
+
+/-- `grant_unique_sound`, `grant_shared_sound`: grants do happen -/
+example : ((Sys.init 3).step 0 .borrowMut).2 = some true ∧
+    ((run (Sys.init 3) [(1, .borrowAdd)]).step 0 .borrowAdd).2 = some true := by decide
+
+/-- `deny_shared_only_if_unique`, `failed_attempt_restores_word`: a refusal does happen -/
+example : ∃ t, (run (Sys.init 3) [(0, .borrowMut)]).threads[1]? = some t ∧
+    enabled t .borrowAdd = true ∧
+    ((run (Sys.init 3) [(0, .borrowMut)]).step 1 .borrowAdd).2 = none := ⟨{}, by decide⟩
+
+/-- `progress_rollback`: a thread in `rollback` -/
+example : ∃ t, demo.threads[1]? = some t ∧ t.rollback = true :=
+  ⟨{ rollback := true }, by decide⟩
+
+/-- `quiescent_zero`: after everything is given back the state is quiescent -/
+example : ∀ t ∈ (run demo [(1, .borrowUndo), (0, .releaseMut)]).threads,
+    t.shared = 0 ∧ t.uniq = false ∧ t.rollback = false := by decide
+
+/-! ### tie to the source text of borrow.rs (translator) -/
+
+section Sites
+open Hecs.Atomics
 
 /-- The atomic operations of borrow.rs (extracted from the source on this run) are exactly the five
 actions of the model, with the same read-modify-write methods and operands, in the same order. -/
@@ -23,5 +177,7 @@ theorem orderings_sufficient :
 theorem constants :
     Hecs.Generated.uniqueBit.toNat = UNIQUE ∧ Hecs.Generated.counterMask.toNat = UNIQUE - 1 := by
   decide
+
+end Sites
 
 end Hecs.Props.C06
